@@ -100,6 +100,18 @@ def name_error(varname, function, pop_frames=1):
         return err
 
 
+def _suspend(frame, value):
+    """A generator is about to yield value: tell the frame, if it cares."""
+    fn = getattr(frame, "suspend", None)
+    return value if fn is None else fn(value)
+
+
+def _resume(frame, value):
+    """A generator was resumed with value: tell the frame, if it cares."""
+    fn = getattr(frame, "resume", None)
+    return value if fn is None else fn(value)
+
+
 def _readline_mock(src):
     """Line reader for the given text.
 
@@ -778,7 +790,15 @@ class PteraTransformer(NodeTransformer):
             "#receive",
             None,
             self._get("enter_tag"),
-            ast.Yield(value=new_value),
+            self._wrap_call(
+                "__ptera_resume",
+                self._get("frame"),
+                ast.Yield(
+                    value=self._wrap_call(
+                        "__ptera_suspend", self._get("frame"), new_value
+                    )
+                ),
+            ),
             True,
         )
         return ast.copy_location(new_yield, node)
@@ -996,6 +1016,8 @@ def transform(fn, proceed, to_instrument=True, set_conformer=True):
         "ABSENT": ("__ptera_ABSENT", ABSENT),
         "Key": ("__ptera_Key", Key),
         "get_tags": ("__ptera_get_tags", get_tags),
+        "suspend": ("__ptera_suspend", _suspend),
+        "resume": ("__ptera_resume", _resume),
         "self": (fnsym, None),
         "frame": ("__ptera_frame", None),
         "enter_tag": ("__ptera_enter_tag", enter_tag),
